@@ -24,6 +24,37 @@ def _assigned_names(body):
     return out
 
 
+_MIH_CACHE = {}
+
+
+def _mentions_intermediate_heap(f, h):
+    """does formula f mention a version of a heap array (or of the allocation pointer) other than the pre-state's?"""
+    names = set(h.arr) | {'alloc'}
+    fid = f.get_id()
+    if fid in _MIH_CACHE:
+        return _MIH_CACHE[fid]
+    seen, stack, hit = set(), [f], False
+    while stack and not hit:
+        e = stack.pop()
+        i = e.get_id()
+        if i in seen:
+            continue
+        seen.add(i)
+        if z3.is_quantifier(e):
+            stack.append(e.body())
+            continue
+        if z3.is_app(e):
+            if e.num_args() == 0 and e.decl().kind() == z3.Z3_OP_UNINTERPRETED:
+                nm = e.decl().name()
+                if '!' in nm:
+                    base, rest = nm.split('!', 1)
+                    if base in names and rest != 'pre':
+                        hit = True
+            stack.extend(e.children())
+    _MIH_CACHE[fid] = hit
+    return hit
+
+
 def _probe(ex, run_body, entry: State, extra_locals=()):
     """find the arrays / locals a loop body may modify, by running it (all paths) and comparing; to a fixed point"""
     mod_arr, mod_alloc = set(), False
@@ -245,6 +276,8 @@ def exec_for(ex, s: ast.For, st: State) -> list[State]:
         ex.oblige('%s.inv.init.%s' % (tag, nm), st, f, 'inv.init')
     # --- arbitrary iteration
     head = st.fork()
+    if spec.forget_history:
+        head.pc = [f for f in head.pc if not _mentions_intermediate_heap(f, st.h)]
     _havoc_into(ex, head, mod_arr, mod_alloc, mod_locals, st, tag)
     if 'L_bag' in mod_arr:
         for f in list_axioms(head.h):
@@ -262,6 +295,10 @@ def exec_for(ex, s: ast.For, st: State) -> list[State]:
     if spec.stable_iter and kind == 'list':
         # list-theory facts about the processed prefix of an unmodified list: done <= bag
         head.assume(z3.ForAll([dv], z3.Select(done, dv) <= h_entry.bag(cont, dv), patterns=[z3.Select(done, dv)]))
+        # ... and every element of the prefix [0, i) has been processed (done is the bag of that prefix: T2 coupling of at / bag)
+        jq = z3.Int('j!dn')
+        head.assume(z3.ForAll([jq], z3.Implies(z3.And(0 <= jq, jq < i), z3.Select(done, h_entry.at(cont, jq)) >= 1),
+                              patterns=[h_entry.at(cont, jq)]))
     c_head = lctx(head, i, done)
     for (nm, f) in auto_inv(head, i) + list(spec.inv(c_head)):
         head.assume(f)
